@@ -216,8 +216,15 @@ def run(repo: Repo, chk: Check, thorough: bool = False) -> None:
     for c in pcalls:
         tree = c.args[0] if c.args else None
         tests = cfg.dominating_tests(cfg.stmt_of(c))
-        ok = isinstance(tree, ast.Name) and (any(pol and isinstance(t, ast.Name) and t.id == tree.id for (t, pol) in tests) or
-                                             any(not_none_fact(t, pol, tree.id) for (t, pol) in tests))
+        # the local that is handed over, and the locals that are the same value under another name (`ast = tree` ; `if tree: ... processModuleAST(ast, mod)`)
+        same: Set[str] = {tree.id} if isinstance(tree, ast.Name) else set()
+        for _ in range(2):
+            for a_ in pm.walk():
+                if isinstance(a_, ast.Assign) and isinstance(a_.value, ast.Name) and len(a_.targets) == 1 and isinstance(a_.targets[0], ast.Name):
+                    if a_.targets[0].id in same or a_.value.id in same:
+                        same |= {a_.targets[0].id, a_.value.id}
+        ok = isinstance(tree, ast.Name) and (any(pol and isinstance(t, ast.Name) and t.id in same for (t, pol) in tests) or
+                                             any(not_none_fact(t, pol, nm_) for (t, pol) in tests for nm_ in same))
         chk.ob('R01.2', 'System.processModule :: parse result tested before processModuleAST', ok,
                'dominated by a truth test of the parse result' if ok else
                'processModuleAST(ast, ...) is reachable with ast = None (unparsable file would crash the walk)',
